@@ -9,6 +9,7 @@ import JumanjiModel.Env.Cleaner.Lemmas
 import JumanjiModel.Env.Cleaner.BoundsLemmas
 import JumanjiModel.Env.Cleaner.EpisodeLemmas
 import JumanjiModel.Env.Cleaner.GenLemmas
+import JumanjiModel.Env.Cleaner.SpecLemmas
 open Jm Cleaner
 
 namespace Props.CleanerEx
@@ -39,8 +40,34 @@ theorem cleaner_step_agrees (cfg : Cfg) (s : State) (hI : Inv cfg s) (action : L
     isActionValid (action.map Int.ofNat) s.actionMask = legalJoint cfg s action :=
   Cleaner.step_agrees hI action ha
 
+/-- the same about the `step` function itself (wave 3; `cleaner_step_agrees` speaks about the helper `isActionValid`
+only): for every in-spec joint action and every agent `i` standing at `loc` and playing `a`, `step` moves agent `i` to
+`dest loc a` exactly when the rules allow the move, and leaves it at `loc` (the environment treated the component as
+invalid) exactly when they do not -/
+theorem cleaner_step_moves_iff_legal (cfg : Cfg) (s : State) (hI : Inv cfg s) (action : List Nat)
+    (ha : ∀ a ∈ action, a < 4) (i : Nat) (loc : Pos) (a : Nat) (h1 : s.agents[i]? = some loc)
+    (h2 : action[i]? = some a) :
+    ((step cfg s (action.map Int.ofNat)).1.agents[i]? = some (dest loc a) ↔ legal cfg s i a) ∧
+    ((step cfg s (action.map Int.ofNat)).1.agents[i]? = some loc ↔ ¬ legal cfg s i a) :=
+  Cleaner.step_moves_iff_legal hI action ha i loc a h1 h2
+
+/-- … and the episode is ended by `step` for the reason "invalid action" exactly when some component is illegal: on a
+consistent state `step` answers LAST iff a component is illegal, or no dirty tile is left, or the limit is reached
+(the rules' `endsSpec`) -/
+theorem cleaner_last_iff_rules (cfg : Cfg) (s : State) (hC : Consistent cfg s) (action : List Nat)
+    (ha : ∀ a ∈ action, a < 4) :
+    (step cfg s (action.map Int.ofNat)).2.stepType = .last ↔
+      endsSpec cfg s action (step cfg s (action.map Int.ofNat)).1 := by
+  rw [Cleaner.step_refines hC action ha]
+  unfold stepSpec condLast
+  simp only
+  split <;> simp_all [termination, transition]
+
 example : Jx.Grid.shaped CleanerEx.st.grid CleanerEx.cfg.numRows CleanerEx.cfg.numCols = true := by decide
 example : Inv CleanerEx.cfg CleanerEx.st := by decide +kernel
+/-- agent 0 (at `(0,0)`, plays up: illegal) is frozen, agent 1 (at `(1,1)`, plays right: legal) is moved -/
+example : (step CleanerEx.cfg CleanerEx.st [0, 1]).1.agents[0]? = some (0, 0) ∧
+    (step CleanerEx.cfg CleanerEx.st [0, 1]).1.agents[1]? = some (dest (1, 1) 1) := by decide +kernel
 example : legal CleanerEx.cfg CleanerEx.st 1 3 ∧ ¬ legal CleanerEx.cfg CleanerEx.st 0 0 := by decide +kernel
 end Props.C04
 
@@ -49,6 +76,21 @@ namespace Props.C12
 in particular the mask shown is the mask of the moves possible now; any action list -/
 theorem cleaner_obs_faithful (cfg : Cfg) (s : State) (h : Jx.Grid.shaped s.grid cfg.numRows cfg.numCols = true)
     (a : List Int) : (step cfg s a).2.obs = observe cfg (step cfg s a).1 := Cleaner.obs_faithful h a
+
+/-- the same at `reset` (wave 3): `reset` computes the mask for `zeros((num_agents, 2))`, not for the generated
+locations; for a generated state (well-shaped grid, all agents on the origin — every draw of `generate`) the FIRST
+timestep shows the documented function of the reset state -/
+theorem cleaner_reset_obs_faithful (cfg : Cfg) (g : State)
+    (hs : Jx.Grid.shaped g.grid cfg.numRows cfg.numCols = true)
+    (hag : g.agents = List.replicate cfg.numAgents (0, 0)) :
+    (Cleaner.reset cfg g).2.obs = observe cfg (Cleaner.reset cfg g).1 ∧ (Cleaner.reset cfg g).2.stepType = .first :=
+  Cleaner.reset_obs_faithful cfg g hs hag
+
+/-- the hypothesis on the agents is needed: with a generated state whose agent is elsewhere the reset mask is the
+mask of the origin, not of the agent's cell -/
+example : (Cleaner.reset CleanerEx.cfg { CleanerEx.st with agents := [(1, 1), (1, 1)] }).2.obs ≠
+    observe CleanerEx.cfg (Cleaner.reset CleanerEx.cfg { CleanerEx.st with agents := [(1, 1), (1, 1)] }).1 := by
+  decide +kernel
 end Props.C12
 
 namespace Props.C11
@@ -125,6 +167,23 @@ theorem cleaner_clean_stays_clean (cfg : Cfg) (s : State) (a : List Int) :
   Cleaner.clean_stays_clean cfg s a
 
 example : Consistent CleanerEx.cfg CleanerEx.st := by decide +kernel
+
+/-- whole runs (wave 3): between the first and the last state of ANY in-spec run from a consistent state the walls are
+the same, every clean tile is still clean and the number of agents is the same -/
+theorem cleaner_run_conserved (cfg : Cfg) (s : State) (hC : Consistent cfg s) (as : List (List Nat))
+    (hA : InSpec cfg as) : conserved s (runState cfg s (toInt as)) = true := Cleaner.run_conserved hC as hA
+
+/-- every state of every episode from `reset`: for EVERY draw of the generator (any recursive-division maze of the
+configured size ≥ 1×1) and every in-spec sequence of joint actions (legal or not, of any length), the state reached is
+consistent, conserves the reset state's walls / clean tiles / agents, and its walls are exactly the drawn maze -/
+theorem cleaner_consistent_along (cfg : Cfg) (maze : Jx.Grid Bool) (hr : 0 < cfg.numRows) (hc : 0 < cfg.numCols)
+    (hm : MazeGen.isRecursiveDivisionMaze maze cfg.numRows cfg.numCols = true) (as : List (List Nat))
+    (hA : InSpec cfg as) :
+    Consistent cfg (runState cfg (Cleaner.reset cfg (generate cfg maze)).1 (toInt as)) ∧
+    conserved (Cleaner.reset cfg (generate cfg maze)).1
+      (runState cfg (Cleaner.reset cfg (generate cfg maze)).1 (toInt as)) = true ∧
+    wallMap (runState cfg (Cleaner.reset cfg (generate cfg maze)).1 (toInt as)).grid = maze :=
+  Cleaner.consistent_along cfg maze hr hc hm as hA
 end Props.C07
 
 namespace Props.C08
@@ -184,6 +243,19 @@ theorem cleaner_episode_return_from_reset (cfg : Cfg) (s : State) (as : List (Li
     (h0 : s.stepCount = 0) (h1 : countTiles CLEAN s.grid = 1) :
     runReturn cfg s as = objective cfg (runState cfg s as) :=
   Cleaner.run_return_from_reset cfg s as h0 h1
+
+/-- the two hypotheses above are established by `reset` for EVERY draw of the generator (wave 3), hence: for every
+recursive-division maze of the configured size ≥ 1×1 and ANY list of joint actions played from the reset state, the
+return is the objective recomputed from the final state: clean tiles − 1 − penalty · steps -/
+theorem cleaner_episode_return_from_generated (cfg : Cfg) (maze : Jx.Grid Bool) (hr : 0 < cfg.numRows)
+    (hc : 0 < cfg.numCols) (hm : MazeGen.isRecursiveDivisionMaze maze cfg.numRows cfg.numCols = true)
+    (as : List (List Int)) :
+    countTiles CLEAN (Cleaner.reset cfg (generate cfg maze)).1.grid = 1 ∧
+    (Cleaner.reset cfg (generate cfg maze)).1.stepCount = 0 ∧
+    runReturn cfg (Cleaner.reset cfg (generate cfg maze)).1 as
+      = objective cfg (runState cfg (Cleaner.reset cfg (generate cfg maze)).1 as) :=
+  ⟨(Cleaner.generate_one_clean cfg maze hr hc hm).1, (Cleaner.generate_one_clean cfg maze hr hc hm).2,
+   Cleaner.return_from_generated cfg maze hr hc hm as⟩
 
 /-- the 2×3 example grid as the generator would deliver it: only the start tile clean, agents on it -/
 def cleanerExReset : State :=
@@ -355,4 +427,87 @@ example : Consistent Props.CleanerEx.cfg Props.CleanerEx.st ∧ 0 ≤ Props.Clea
 /-- the bound on `step_count` is attained on the step that reaches the limit -/
 example : (step { Props.CleanerEx.cfg with timeLimit := 4 } Props.CleanerEx.st [1, 1]).2.obs.stepCount = 4 := by
   decide +kernel
+
+/-! #### membership in the DECLARED spec (wave 3): structure, shapes, dtypes and bounds -/
+open Sp PzS
+
+/-- the model's `obsSpec` / `actionSpec` ARE the specs generated from the real spec objects (Gen/Specs.lean) for the
+three catalogue configurations of Cleaner (5×7 with 2 agents and limit 11; 4×5 and 3×6 with one agent and the default
+limit rows·cols); for every other configuration the `cleaner.spec` op compares them with the real objects on every run -/
+theorem cleaner_obsSpec_generated :
+    prefixed "observation_spec." (obsSpec ⟨5, 7, 2, 11, 1/2⟩) = declared "cleaner-5x7x2" "observation_spec." ∧
+    prefixed "observation_spec." (obsSpec ⟨4, 5, 1, 20, 1/2⟩) = declared "cleaner-none" "observation_spec." ∧
+    prefixed "observation_spec." (obsSpec ⟨3, 6, 1, 18, 1/2⟩) = declared "cleaner-none-3x6" "observation_spec." ∧
+    [("action_spec", actionSpec ⟨5, 7, 2, 11, 1/2⟩)] = declared "cleaner-5x7x2" "action_spec" ∧
+    [("action_spec", actionSpec ⟨4, 5, 1, 20, 1/2⟩)] = declared "cleaner-none" "action_spec" ∧
+    [("reward_spec", PzS.rewardSpec)] = declared "cleaner-5x7x2" "reward_spec" ∧
+    [("discount_spec", discountSpec)] = declared "cleaner-5x7x2" "discount_spec" := by
+  refine ⟨by decide, by decide, by decide, by decide, by decide, by decide, by decide⟩
+
+/-- the `reset` observation is accepted by `observation_spec.validate` for EVERY draw of the generator (any
+recursive-division maze of the configured size ≥ 1×1) and every configuration with `time_limit ≥ 0`: fields `grid`,
+`agents_locations`, `action_mask`, `step_count`; shapes `(rows, cols)`, `(agents, 2)`, `(agents, 4)`, `()`; dtypes int8,
+int32, bool, int32; bounds [0, 2], [0, rows] × [0, cols], [0, 1], [0, T] -/
+theorem cleaner_reset_obs_valid (cfg : Cfg) (maze : Jx.Grid Bool) (hr : 0 < cfg.numRows) (hc : 0 < cfg.numCols)
+    (hm : MazeGen.isRecursiveDivisionMaze maze cfg.numRows cfg.numCols = true) (htl : 0 ≤ cfg.timeLimit) :
+    (obsSpec cfg).valid (toNValue cfg (Cleaner.reset cfg (generate cfg maze)).2.obs) = true :=
+  Cleaner.reset_obs_valid cfg maze hr hc hm htl
+
+/-- the same for every `step` observation from a consistent state of a running episode, for every in-spec joint
+action (legal or not), up to and including the terminal step (`Consistent` is established by `reset` for every draw and
+preserved by every step: `cleaner_consistent_along`) -/
+theorem cleaner_step_obs_valid (cfg : Cfg) (s : State) (hC : Consistent cfg s) (h0 : 0 ≤ s.stepCount)
+    (h1 : s.stepCount < cfg.timeLimit) (action : List Nat) (hl : action.length = s.agents.length)
+    (ha : ∀ a ∈ action, a < 4) :
+    (obsSpec cfg).valid (toNValue cfg (step cfg s (action.map Int.ofNat)).2.obs) = true :=
+  Cleaner.step_obs_valid cfg s hC h0 h1 action hl ha
+
+/-- composed: every observation of every episode from `reset` — any generator draw, any in-spec joint actions `as`
+played so far (fewer than `time_limit`), any further in-spec joint action — is a member of the declared spec -/
+theorem cleaner_obs_valid_along (cfg : Cfg) (maze : Jx.Grid Bool) (hr : 0 < cfg.numRows) (hc : 0 < cfg.numCols)
+    (hm : MazeGen.isRecursiveDivisionMaze maze cfg.numRows cfg.numCols = true) (as : List (List Nat))
+    (hA : InSpec cfg as) (hlen : (as.length : Int) < cfg.timeLimit) (action : List Nat)
+    (hl : action.length = cfg.numAgents) (ha : ∀ a ∈ action, a < 4) :
+    (obsSpec cfg).valid (toNValue cfg
+      (step cfg (runState cfg (Cleaner.reset cfg (generate cfg maze)).1 (toInt as)) (action.map Int.ofNat)).2.obs) = true :=
+  Cleaner.obs_valid_along cfg maze hr hc hm as hA hlen action hl ha
+
+/-- what membership means (so the theorems above are not hollow): `validate` accepts an observation ONLY IF its grid has
+`num_rows` rows and `num_rows · num_cols` tiles, all in [0, 2], there are `num_agents` agents and mask rows, and the
+step count is in [0, T] -/
+theorem cleaner_obs_valid_only (cfg : Cfg) (o : Obs) (h : (obsSpec cfg).valid (toNValue cfg o) = true) :
+    List.length o.grid = cfg.numRows ∧ (List.flatten o.grid).length = cfg.numRows * cfg.numCols ∧
+    (∀ v ∈ List.flatten o.grid, 0 ≤ v ∧ v ≤ 2) ∧ o.agents.length = cfg.numAgents ∧
+    o.actionMask.length = cfg.numAgents ∧ 0 ≤ o.stepCount ∧ o.stepCount ≤ cfg.timeLimit :=
+  Cleaner.obs_valid_only cfg o h
+
+/-- rejected: a counter beyond the limit, a tile value 3, an agent in column `num_cols + 1`; accepted: the example
+state's observation — and, the declared maxima of `agents_locations` being the EXTENTS, an agent "at" row `num_rows`
+(outside the grid) would be accepted too: the declared spec is looser than what `step` emits
+(`cleaner_step_obs_in_bounds`: locations ≤ extent − 1) -/
+example :
+    (obsSpec CleanerEx.cfg).valid (toNValue CleanerEx.cfg (obsOf { CleanerEx.st with stepCount := 11 })) = false ∧
+    (obsSpec CleanerEx.cfg).valid (toNValue CleanerEx.cfg (obsOf { CleanerEx.st with grid := [[1, 0, 3], [0, 1, 0]] })) = false ∧
+    (obsSpec CleanerEx.cfg).valid (toNValue CleanerEx.cfg (obsOf { CleanerEx.st with agents := [(0, 4), (1, 1)] })) = false ∧
+    (obsSpec CleanerEx.cfg).valid (toNValue CleanerEx.cfg (obsOf CleanerEx.st)) = true ∧
+    (obsSpec CleanerEx.cfg).valid (toNValue CleanerEx.cfg (obsOf { CleanerEx.st with agents := [(2, 3), (1, 1)] })) = true := by
+  decide +kernel
+
+/-- `action_spec.generate_value()` (every configuration): the action spec `MultiDiscreteArray(full(num_agents, 4))` is
+well-formed, the generated value — the all-zero joint action, everybody "up" — is a member of it, and `step` answers it
+in EVERY state with a protocol-conform timestep (on the reset state "up" leaves the grid: the episode ends at once) -/
+theorem cleaner_accepts_generate_value (cfg : Cfg) (s : State) :
+    (actionSpec cfg).WF = true ∧ (actionSpec cfg).valid (actionSpec cfg).generate = true ∧
+    (actionSpec cfg).generate = ⟨[cfg.numAgents], .int32, List.replicate cfg.numAgents 0⟩ ∧
+    StepOK none false (step cfg s (List.replicate cfg.numAgents 0)).2 = true := Cleaner.accepts_generate_value cfg s
+
+/-- reward and discount of every `step` (ALL states, ALL action lists) are accepted by `reward_spec` (Array((), float))
+and `discount_spec` (BoundedArray((), float, 0, 1)) -/
+theorem cleaner_reward_discount_valid (cfg : Cfg) (s : State) (a : List Int) :
+    PzS.rewardSpec.valid (scalarArr (step cfg s a).2.reward) = true ∧
+    discountSpec.valid (scalarArr (step cfg s a).2.discount) = true := by
+  refine stepOK_reward_discount_valid false _ ?_
+  unfold step condLast
+  simp only
+  split <;> rfl
 end Props.C01
